@@ -47,7 +47,7 @@ MANIFEST = dict(
               "+ regenerated operator table lemma + model/implementation correspondence by vm_compute",
 )
 
-THEOREMS = ["C10_roundtrip", "C10_precedence", "C10_parens", "C10_optable"]
+THEOREMS = ["C10_roundtrip", "C10_precedence", "C10_parens", "C10_optable", "C10_lex_tables"]
 ALLOWED_AXIOMS = []
 
 KNOWN = [f for f in common.load_known() if f.get("property") == "C10"]
@@ -150,7 +150,7 @@ def make_cases(chk, quick):
     cases = []   # dict(src, kind, expect (sexpr or None), tree)
     for c in json.load(open(os.path.join(common.VERIF, "corpus", "c10.json"))):
         cases.append(dict(src=c["src"], kind="corpus", expect=c.get("expect"), note=c.get("note", "")))
-    nvalid = 2600 if quick else 60000
+    nvalid = 2600 if quick else 20000
     for n in range(nvalid):
         depth = rng.choice([1, 2, 2, 3, 3, 4, 5, 6])
         t = L.gen_tree(rng, depth, extra=rng.choice([0.0, 0.0, 0.05, 0.3]))
@@ -164,12 +164,12 @@ def make_cases(chk, quick):
         if rng.random() < (0.35 if quick else 0.5):
             mt = L.gen_mutation(rng, tk)
             cases.append(dict(src=L.render(mt, rng, tight=0.0), kind="mutated", expect=None))
-    for n in range(700 if quick else 20000):
+    for n in range(700 if quick else 6000):
         cases.append(dict(src=L.gen_soup(rng), kind="soup", expect=None))
-    for n in range(500 if quick else 10000):
+    for n in range(500 if quick else 4000):
         s = L.gen_numberish(rng)
         cases.append(dict(src=s, kind="numberish", expect=None))
-    for n in range(400 if quick else 10000):
+    for n in range(400 if quick else 4000):
         cases.append(dict(src=L.gen_chars(rng), kind="chars", expect=None))
     # operator pairs, exhaustively: a op1 b op2 c with minimal parentheses in both groupings
     ops = list(L.BINLEVEL) + ["Power", "imul"]
